@@ -1,9 +1,10 @@
 (* C14/Props.v — the property theorems, nothing else.
    Model: C14/Model.v (mirrors src/callbacks.py NestedCommandsIrcProxy + Commands dispatch).
-   Proofs: Lemmas.v (refinement), Dispatch.v (dispatch, nesting limit), Witness.v (witnesses). *)
+   Proofs: Lemmas.v (refinement), Dispatch.v (dispatch, nesting limit), Witness.v (witnesses),
+   History.v (disable/enable histories). *)
 From Coq Require Import List NArith Arith.
 Import ListNotations.
-Require Import Base.Wire Base.PyStr C14.Model C14.Lemmas C14.Dispatch C14.Witness.
+Require Import Base.Wire Base.PyStr C14.Model C14.Lemmas C14.Dispatch C14.Witness C14.History.
 
 (* Full statement: for every dispatch/behaviour function [final], configuration and command tree, the proxy
    machine ends, its call log (thread flags erased) and outcome are those of the post-order, left-to-right,
@@ -89,3 +90,44 @@ Proof.
   destruct qualified_refuted as (H1 & H2 & H3 & H4 & H5 & H6). repeat split; try assumption; vm_compute; reflexivity.
 Qed.
 Print Assumptions C14_qualified_refuted.
+
+(* Full statement: after ANY history of Owner.disable / Owner.enable operations (starting from nothing disabled)
+   the table behind Commands.isDisabled answers like the documented semantics spec_run: a command is disabled
+   everywhere from a successful `disable c` until a successful `enable c`, in one plugin from a successful
+   `disable P c` until a successful `enable P c`, and a refused operation changes nothing.
+   The pinned code violates it (finding C14.F24) when an everywhere-operation meets per-plugin entries of the same
+   command; proved: it holds on hist_dom (no such meeting) for every [has_cmd], and fails on witnesses outside. *)
+Theorem C14_history_disabled_on_domain :
+  forall has_cmd ops, hist_dom has_cmd S0 ops = true ->
+  forall c p, dis_disabled (o_d (owner_run has_cmd (OState [] []) ops)) c p =
+              spec_disabled (spec_run has_cmd S0 ops) c p.
+Proof. exact history_disabled_on_domain. Qed.
+Print Assumptions C14_history_disabled_on_domain.
+
+(* witness 1: `disable Al a`, `enable a`: the enable is refused (false) and yet Al.a is no longer disabled;
+   witness 2: `disable Al a`, `disable a`, `enable a` (all succeed): al.a stays listed, Al.a is no longer disabled *)
+Theorem C14_history_disabled_refuted :
+  (exists has_cmd ops o c p, hist_dom has_cmd S0 (ops ++ [o]) = false /\
+     snd (owner_step has_cmd (owner_run has_cmd (OState [] []) ops) o) = false /\
+     spec_disabled (spec_run has_cmd S0 (ops ++ [o])) c p = true /\
+     dis_disabled (o_d (owner_run has_cmd (OState [] []) (ops ++ [o]))) c p = false) /\
+  (exists has_cmd ops c p, hist_dom has_cmd S0 ops = false /\
+     spec_disabled (spec_run has_cmd S0 ops) c p = true /\
+     dis_disabled (o_d (owner_run has_cmd (OState [] []) ops)) c p = false).
+Proof.
+  split.
+  - exists hc_all, [ODisable (Some s_al) s_a], (OEnable None s_a), s_a, s_al. exact history_refuted1.
+  - exists hc_all, h_overwrite, s_a, s_al. exact history_refuted2.
+Qed.
+Print Assumptions C14_history_disabled_refuted.
+
+(* On hist_dom, a command the history left disabled everywhere is never the command selected to run,
+   whatever the plugins, defaults, important plugins and arguments. *)
+Theorem C14_history_never_selected :
+  forall has_cmd ops cbs defaults important strs x cb,
+  hist_dom has_cmd S0 ops = true ->
+  memG (canon x) (s_G (spec_run has_cmd S0 ops)) = true ->
+  let E := Env cbs (o_d (owner_run has_cmd (OState [] []) ops)) defaults important in
+  In cb (snd (findCallbacksForArgs E strs)) -> last (fst (findCallbacksForArgs E strs)) [] <> x.
+Proof. exact history_never_selected. Qed.
+Print Assumptions C14_history_never_selected.
